@@ -215,6 +215,13 @@ def check_cycles_rules(ctx, rep, rule):
             if v == T.TRUE:
                 inloop = e.data['in_loop'] or any(val and k[0] == 'exists' and k[1][0] in ('gen', 'call')
                                                   for k, val in e.st.facts.items())
+                done_scan = e.data.get('scanned') or any(val and k[0] == 'forall' and k[1][0] in ('gen', 'call')
+                                                         for k, val in e.st.facts.items())
+                rep.check(done_scan, rule, "%s True only once the whole scan was made" % e.where, fn,
+                          "`%s` reachable without scanning the graph (facts: %s)"
+                          % (src(stmt_of(e.node)), [(T.show(k, 3), v) for k, v in e.st.facts.items()][:3]),
+                          "check_cycles() answers True without looking at the graph - or at its nested schedulers",
+                          trace(e.st))
                 rep.check(not inloop, rule, "%s True only after the scan is exhausted" % e.where, fn,
                           "`return True` inside the scan loop", "a cyclic graph is declared sound after its "
                           "first job was scanned", trace(e.st))
@@ -316,6 +323,11 @@ class SanitizeModel(GraphModel):
     def on_call(self, ip, node, fterm, args, kws, st, fr):
         if fterm[0] == 'attr' and fterm[2] == 'sanitize' and fterm[1][0] == 'elem':
             self.ev(ip, 'CALL', node, st, fr, recv=fterm[1], meth='sanitize', args=args, kws=kws, depth=fr.depth)
+            for c in ip.loopctx:
+                if c.kind == 'comp' and isinstance(c.node, ast.GeneratorExp):
+                    par = getattr(c.node, '_parent', None)
+                    if isinstance(par, ast.Call) and dotted(par.func) in ('all', 'any', 'next'):
+                        self.ev(ip, 'REC_SKIPPED', node, st, fr, how=dotted(par.func))
             return [(st.set(rec_called=True), T.mk(('mcall', fterm[1], 'sanitize', (), ())))]
         return GraphModel.on_call(self, ip, node, fterm, args, kws, st, fr)
 
@@ -451,7 +463,8 @@ def sanitize_rules(ctx, rep, r1, r2, r3, r4):
     for e in an.events('REC_SKIPPED'):
         rep.fail(r3, "%s recursion skipped on some path" % e.where, fn,
                  "an iteration over a nested scheduler can finish without calling its sanitize() "
-                 "(short-circuit or condition on the flag)",
+                 "(short-circuit%s or condition on the flag)" % (
+                     " of %s() over a generator" % e.data['how'] if e.data.get('how') else ""),
                  "a nested scheduler is left unsanitized once a change was seen earlier in the loop",
                  trace(e.st))
     # R16.4 truth table of the returned value
@@ -704,6 +717,14 @@ def _step_shape(ctx, rep, rule, stepf, attparam):
         inner = [l for l in ast.walk(o) if isinstance(l, ast.For) and l is not o
                  and isinstance(l.iter, ast.Call) and dotted(l.iter.func) == 'getattr']
         if not inner:
+            bulk = [c for c in ast.walk(o) if isinstance(c, ast.Call) and isinstance(c.func, ast.Attribute)
+                    and c.func.attr in ('update', 'extend') and c.args and isinstance(c.args[0], ast.Call)
+                    and dotted(c.args[0].func) == 'getattr']
+            if bulk:
+                rep.fail(rule, "%s members only" % fn, fn,
+                         "`%s` adds every neighbour without testing membership in self.jobs" % src(bulk[0]),
+                         "jobs that are not members of this scheduler are returned (e.g. after a raw remove())")
+                return
             rep.error(rule, "%s: no inner loop over getattr(start, attribute)" % fn)
             return
         i = inner[0]
